@@ -74,7 +74,9 @@ def run(R, ctx):
     if nsync < 2:
         raise CheckError('sync record path not found')
     wb = ctx.body(r'^writers::file_log_writer::state::State::write_buffer$')
-    hits = cg.reaches_effect(wb.path, lambda n_, t: effect_class(n_) in ('CHAN_SEND', 'SPAWN'), stop=STOPS)
+    # (a request sent to the cleanup thread is not deferred record work, whatever helper sends it)
+    hits = cg.reaches_effect(wb.path, lambda n_, t: effect_class(n_) in ('CHAN_SEND', 'SPAWN') and
+                             'MessageToCleanupThread' not in ' '.join(t['callee'].get('targs') or []) + (t['callee'].get('self_ty') or ''), stop=STOPS)
     R.check('R11.2', f"{wb.path}|no-deferred-work", not hits, "write_buffer sends nothing and spawns nothing (cleanup thread apart)",
             f"State::write_buffer defers work ({hits[:2]}): the record is not in the file when log() returns", where=wb.loc())
     c01.sink_table(R, ctx, 'R11.2')
